@@ -149,12 +149,12 @@ def make_consts(ch, params):
 
 def plan(tier, seed):
     if tier == 'quick':
-        ccs = ['gcc-O0', 'clang-O0', 'gcc-O2-gnu89', 'clang-O2']
+        ccs = ['gcc-O0', 'clang-O0', 'gcc-O2-gnu89', 'clang-O2', 'gcc-O0-c89', 'clang-O2-c89']
         # segment offsets with the sign bit set (0x7ffffffc ... just below the memory's end) need a memory of more than 2 GiB: the
         # generator C05 uses for such memories, a few cases
         big = [{'maker': 'c05_bigmem', 'ncases': 2, 'ccs': ['gcc-O0', 'clang-O2'], 'shrink_budget': 5, 'encoding_knobs': False} for _ in range(3)]
         return [{'maker': 'c07_consts', 'ncases': 12, 'ccs': ccs, 'nconst': 400, 'shrink_budget': 40} for _ in range(32)] + big
-    ccs = ['gcc-O0', 'clang-O0', 'gcc-O2-gnu89', 'clang-O2', 'gcc-O0-gnu89', 'clang-O0-gnu89', 'gcc-O3', 'clang-O3']
+    ccs = ['gcc-O0', 'clang-O0', 'gcc-O2-gnu89', 'clang-O2', 'gcc-O0-gnu89', 'clang-O0-gnu89', 'gcc-O3', 'clang-O3', 'gcc-O0-c89', 'gcc-O2-c89', 'clang-O2-c89']
     big = [{'maker': 'c05_bigmem', 'ncases': 20, 'ccs': ['gcc-O0', 'clang-O2', 'gcc-O2', 'clang-O0'], 'shrink_budget': 5, 'encoding_knobs': False} for _ in range(6)]
     return [{'maker': 'c07_consts', 'ncases': 150, 'ccs': ccs, 'nconst': 600, 'shrink_budget': 60} for _ in range(64)] + big
 
